@@ -378,7 +378,15 @@ def run_harness(unit, h, src_c, workdir, label_by_line, mode='proof', solver=Non
         cbt = cb + ['--trace'] + sum([['--property', r['id']] for r in want], [])
         rc2, out2, dt2 = sh(cbt, log=base + '.trace.log', timeout=min(to, 300))
         for r in fails:
+            full = extract_trace(out2, r['id'], maxlines=10 ** 9)
             r['trace'] = extract_trace(out2, r['id'])
+            # last (and first) assignment per identifier, taken from the FULL trace (the stored text is abridged)
+            last, first = {}, {}
+            for m in re.finditer(r'^\s+([A-Za-z_][\w.$!@\[\]]*)=([^ \n]+)', full, re.M):
+                last[m.group(1)] = m.group(2)
+                first.setdefault(m.group(1), m.group(2))
+            r['trace_last'] = last
+            r['trace_first'] = first
     guards = []
     if 'ignoring' in out and 'forall' in out:
         guards.append('quantifier ignored by back end')
